@@ -74,6 +74,13 @@ def _run(k, uid, prog, proc):
                     return r
             except SoftTimeLimitExceeded:
                 k.record('soft-caught', uid)
+                if len(ins) > 2 and isinstance(ins[2], list):
+                    # the task goes on working (cleaning up) after it caught the soft limit
+                    try:
+                        _run(k, uid, ins[2], proc)
+                    except SoftTimeLimitExceeded:
+                        k.record('soft-raised-again', uid)
+                        raise
                 return ('v', uid, 'soft-caught')
         elif op == 'sys_exit':
             import billiard.pool as P
